@@ -4,6 +4,9 @@ package sym
 
 import (
 	"bufio"
+	"crypto/sha256"
+	"os"
+	"sync"
 	"fmt"
 	"io"
 	"os/exec"
@@ -12,6 +15,14 @@ import (
 	"strings"
 	"time"
 )
+
+var slowMs, slowN int
+
+func init() {
+	if v := os.Getenv("GOSYM_SLOW"); v != "" {
+		slowMs, _ = strconv.Atoi(v)
+	}
+}
 
 type Result int
 
@@ -31,6 +42,7 @@ type Solver struct {
 	in        io.WriteCloser
 	out       *bufio.Reader
 	frameOpen bool
+	dirty     bool
 	TimeoutMs int
 
 	Queries   int
@@ -39,6 +51,9 @@ type Solver struct {
 	UnknownN  int
 	SolveTime time.Duration
 	LastErr   string
+	Cache     *sync.Map // shared verdict cache keyed by query text (optional)
+	NeedModel bool      // set by the caller when the model of this query is needed
+	CacheHits int
 	Trace     io.Writer // optional: dump of everything sent
 }
 
@@ -218,21 +233,63 @@ func (s *Solver) Check(ctx *Ctx, assertions []*Term) Result {
 		as = append(as, a)
 	}
 	start := time.Now()
-	var sb strings.Builder
-	if s.frameOpen {
-		sb.WriteString("(pop 1)\n")
-	}
-	sb.WriteString("(push 1)\n")
-	s.frameOpen = true
-	names := emit(&sb, ctx, as)
+	var body strings.Builder
+	names := emit(&body, ctx, as)
 	for _, a := range as {
-		fmt.Fprintf(&sb, "(assert %s)\n", names[a.ID])
+		fmt.Fprintf(&body, "(assert %s)\n", names[a.ID])
 	}
-	sb.WriteString("(check-sat)\n")
+	body.WriteString("(check-sat)\n")
+	text := body.String()
+	hasFP := strings.Contains(text, "FloatingPoint")
+	var key [32]byte
+	if s.Cache != nil && !s.NeedModel {
+		key = sha256.Sum256([]byte(text))
+		if v, ok := s.Cache.Load(key); ok {
+			s.CacheHits++
+			return v.(Result)
+		}
+	}
+	var sb strings.Builder
+	if s.Name == "cvc5" || !hasFP {
+		if s.dirty {
+			// base-level definitions of a reset-mode query are still around
+			sb.WriteString("(reset)\n")
+			fmt.Fprintf(&sb, "(set-option :timeout %d)\n(set-option :produce-models true)\n", s.TimeoutMs)
+			s.dirty = false
+			s.frameOpen = false
+		}
+		if s.frameOpen {
+			sb.WriteString("(pop 1)\n")
+		}
+		sb.WriteString("(push 1)\n")
+		s.frameOpen = true
+	} else {
+		s.dirty = true
+		// (reset) instead of push/pop puts z3 back into its non-incremental mode,
+		// whose tactic pipeline decides the floating-point queries the incremental
+		// core times out on; the process stays alive, so start-up is paid once.
+		sb.WriteString("(reset)\n")
+		fmt.Fprintf(&sb, "(set-option :timeout %d)\n(set-option :produce-models true)\n", s.TimeoutMs)
+		s.frameOpen = false
+	}
+	sb.WriteString(text)
 	s.send(sb.String())
 	s.Queries++
 	res := s.readResult()
 	s.SolveTime += time.Since(start)
+	if s.Cache != nil && res != Unknown {
+		if !s.NeedModel {
+			s.Cache.Store(key, res)
+		} else {
+			s.Cache.Store(sha256.Sum256([]byte(text)), res)
+		}
+	}
+	if d := time.Since(start); slowMs > 0 && d > time.Duration(slowMs)*time.Millisecond {
+		slowN++
+		fn := fmt.Sprintf("/tmp/gosym-slow-%d-%d.smt2", os.Getpid(), slowN)
+		os.WriteFile(fn, []byte(sb.String()), 0o644)
+		fmt.Fprintf(os.Stderr, "SLOW query %v -> %s (%s)\n", d, res, fn)
+	}
 	switch res {
 	case Sat:
 		s.SatN++
